@@ -4,7 +4,8 @@ import Proofs.C11
 `AddHosts(hosts)` puts every host into the policy's own list, rebuilds the ring and recomputes every held replica
 table ONCE and unconditionally, then calls `AddHost` of the fallback policy per host (`Policies.TA.addHosts`).
 Histories over `BOp` = the operations of `TAOp` + `addHosts hs` (any number of bulk calls anywhere in the history,
-any host lists, hosts repeated inside a call, hosts already known); the notifier history of a bulk call is one
+any host lists, hosts repeated inside a call, hosts already known) + `setPartitioner` (the partitioner learned
+at any point of the history, also after hosts and keyspaces); the notifier history of a bulk call is one
 `AddHost` event per host of the call, in call order (`evsOfB`). The history theorems of Proofs/C11.lean are
 re-proved for these histories: completeness with no exclusion, freshness of every table the policy computed itself,
 exactness under the same exclusions as `C11_history_exact_partial`. -/
@@ -14,15 +15,18 @@ open Policies
 inductive BOp
   | op (o : TAOp)
   | addHosts (hs : List Host)
+  | setPartitioner          -- `SetPartitioner` with a supported name, possibly AFTER hosts / keyspaces are known
 
 def _root_.Policies.TA.applyB (t : TA) : BOp → TA
   | .op o => t.apply o
   | .addHosts hs => t.addHosts hs
+  | .setPartitioner => t.setPartitioner
 
 /-- the notifier calls of one operation: a bulk call is `AddHost` of every host of the call, in call order -/
 def BOp.evs : BOp → List (Ev × Host)
   | .op o => (match o.ev with | some e => [e] | none => [])
   | .addHosts hs => hs.map (fun h => (Ev.add, h))
+  | .setPartitioner => []
 
 def evsOfB (ops : List BOp) : List (Ev × Host) := ops.flatMap BOp.evs
 def hostsOfB (ops : List BOp) : List Host := (evsOfB ops).map (·.2)
@@ -146,10 +150,33 @@ theorem BI_addHosts (U : Host → Prop) (hU : ∀ a b, U a → U b → a.addr = 
   · rw [addHosts_hosts]; exact b'.hU
   · rw [addHosts_hosts]; exact b'.hS
 
-/-- `dirtyStep` for bulk histories: a bulk call recomputes every held table -/
+/-- the first `SetPartitioner` builds the ring from the hosts already known and computes every held table; the lists
+and the policy's own host list are not touched; a later call changes nothing -/
+theorem setPartitioner_fields (t : TA) :
+    t.setPartitioner.pol = t.pol ∧ t.setPartitioner.hosts = t.hosts ∧ t.setPartitioner.nonlocal = t.nonlocal := by
+  unfold TA.setPartitioner
+  split
+  · exact ⟨rfl, rfl, rfl⟩
+  · have h := refresh_fields { t with partSet := true }
+    exact ⟨h.1, h.2.2.2.2.1, h.2.2.1⟩
+
+theorem BI_setPartitioner (U : Host → Prop) (t : TA) (S : Host → Status) (d : List Nat) (b : BI U t S d) :
+    BI U t.setPartitioner S (if t.partSet then d else []) := by
+  obtain ⟨e1, e2, _⟩ := setPartitioner_fields t
+  refine ⟨e1 ▸ b.inv, e1 ▸ b.kU, e1 ▸ b.kS, e2 ▸ b.hU, e2 ▸ b.hS, ?_⟩
+  intro ks hks
+  unfold TA.setPartitioner
+  split
+  · rename_i hp
+    rw [if_pos hp] at hks
+    exact b.fresh ks hks
+  · exact tabFresh_refresh { t with partSet := true } ks
+
+/-- `dirtyStep` for bulk histories: a bulk call - and the call that sets the partitioner - recomputes every held table -/
 def dirtyStepB (t : TA) (d : List Nat) : BOp → List Nat
   | .op o => dirtyStep t d o
   | .addHosts _ => []
+  | .setPartitioner => if t.partSet then d else []
 
 def runDirtyB : TA × List Nat → List BOp → TA × List Nat
   | s, [] => s
@@ -203,6 +230,8 @@ theorem BI_run (U : Host → Prop) (hU : ∀ a b, U a → U b → a.addr = b.add
       apply ho h
       simp only [BOp.evs, List.map_map, List.mem_map, Function.comp]
       exact ⟨h, hh, rfl⟩
+    | setPartitioner =>
+      exact BI_setPartitioner U t S d b
 
 theorem BI_new (U : Host → Prop) (k : Kind) (ldc lrack : Nat) (sh nl ps : Bool) (sess : Option Nat) :
     BI U (TA.new (Pol.new k ldc lrack) sh nl ps sess) (fun _ => Status.init) [] :=
@@ -226,6 +255,7 @@ theorem runB_nonlocal (t : TA) (ops : List BOp) : (ops.foldl TA.applyB t).nonloc
     cases o with
     | op o' => exact (apply_opts t o').1
     | addHosts hs => exact (addHosts_opts t hs).1
+    | setPartitioner => exact (setPartitioner_fields t).2.2
 
 /-! ### the theorems of the token-aware iterator, for ANY state with the list invariant -/
 
@@ -445,6 +475,19 @@ example :
     let t := ops.foldl TA.applyB (TA.new (Pol.new .dc 0 0) false true true (some 0))
     t.pickScan (fun _ => true) id (some (0, 150)) = ⟨[h2, h1], false⟩ ∧
     (statusOf (evsOfB ops) h9).expected true = false ∧ (statusOf (evsOfB ops) h1).expected true = true := by
+  decide
+
+/-- non-vacuity, late partitioner: hosts and the session keyspace are known first (every query is handed to the
+fallback policy), `SetPartitioner` then builds ring and table from them - the replica of token 150 leads -/
+example :
+    let h1 : Host := ⟨1, 1, 0, 0, [100]⟩
+    let h2 : Host := ⟨2, 2, 0, 0, [200]⟩
+    let pre := [BOp.op (.setMeta 0 (some (some 1))), .addHosts [h1, h2]]
+    let t := pre.foldl TA.applyB (TA.new (Pol.new .rr 0 0) false false false (some 0))
+    t.replicas = [] ∧ t.pickScan (fun _ => true) id (some (0, 150)) = ⟨[h1, h2], false⟩ ∧
+    (t.applyB .setPartitioner).pickScan (fun _ => true) id (some (0, 150)) = ⟨[h2, h1], false⟩ ∧
+    (t.applyB .setPartitioner).replicas = [(0, [(100, [h1]), (200, [h2])])] ∧
+    ((t.applyB .setPartitioner).applyB .setPartitioner).replicas = [(0, [(100, [h1]), (200, [h2])])] := by
   decide
 
 end C11
